@@ -16,13 +16,17 @@ type readState struct {
 	err error
 }
 
-// fail records the first read error of the run.
-func (r *readState) fail(err error) {
+// readSample fills buf with the next len(buf) bytes of source. A single Read may legally return fewer
+// bytes than requested, so the sample is read with io.ReadFull; the lock keeps the reads of one sample
+// together, so that every sample consists of consecutive bytes of the stream.
+func (r *readState) readSample(source io.Reader, buf []byte) error {
 	r.mu.Lock()
-	if r.err == nil {
+	defer r.mu.Unlock()
+	_, err := io.ReadFull(source, buf)
+	if err != nil && r.err == nil {
 		r.err = err
 	}
-	r.mu.Unlock()
+	return err
 }
 
 // failure returns the first read error of the run, nil if every sample was read.
@@ -41,11 +45,10 @@ func (r *readState) failure() error {
 func worker(jobs chan int, source io.Reader, state *readState, n int, round func([]byte) []*randomness.TestResult, counter []int32, distributions [][]float64, wait *sync.WaitGroup) {
 	buf := make([]byte, n, n*2)
 	for i := range jobs {
-		_, err := source.Read(buf)
+		err := state.readSample(source, buf)
 		if err != nil {
-			// the sample is lost: report the failure to the caller, but still signal completion,
-			// otherwise the caller waits forever
-			state.fail(err)
+			// the sample is lost: the failure is reported to the caller, but completion is still
+			// signalled, otherwise the caller waits forever
 			wait.Done()
 			continue
 		}
